@@ -120,7 +120,27 @@ func c12Guard(p *Prog, r *Report, or *overrideRoles) {
 			}
 			fa, ok := stv.Addr.(*ssa.FieldAddr)
 			if !ok {
-				return
+				// a store through a pointer that was chosen among several fields (p := &m.Consistency ...)
+				var fas []*ssa.FieldAddr
+				all := true
+				for _, o := range origins(stv.Addr) {
+					if x, isFa := o.(*ssa.FieldAddr); isFa {
+						fas = append(fas, x)
+					} else if k, isC := o.(*ssa.Const); isC && k.Value == nil {
+						continue
+					} else {
+						all = false
+					}
+				}
+				if len(fas) == 0 || !all {
+					return
+				}
+				fa = fas[0]
+				for _, x := range fas[1:] {
+					if fieldOfAddr(x).Name() != fieldOfAddr(fa).Name() {
+						st.aux["badstore"] = st.aux["badstore"] + " store through a pointer to different fields"
+					}
+				}
 			}
 			owner := ownerOfField(p, fa)
 			if owner == nil {
@@ -235,7 +255,7 @@ func c12Guard(p *Prog, r *Report, or *overrideRoles) {
 			}
 		}
 	})
-	r.check(len(ab) == 0 && ncalls >= 3, rule, fn.Name()+":reencode-args", p.Pos(fn.Pos()), fmt.Sprintf("%d re-encode sites", ncalls), strings.Join(ab, " || "))
+	r.check(len(ab) == 0 && ncalls >= 1, rule, fn.Name()+":reencode-args", p.Pos(fn.Pos()), fmt.Sprintf("%d re-encode sites", ncalls), strings.Join(ab, " || "))
 }
 
 func c12Membership(p *Prog, r *Report, or *overrideRoles) {
